@@ -20,6 +20,7 @@ from bs4 import BeautifulSoup
 
 from pycaption.base import Caption, CaptionList, CaptionNode, CaptionSet
 from pycaption.dfxp.base import DFXPWriter, DFXP_DEFAULT_LANGUAGE_CODE, DFXP_DEFAULT_STYLE_ID
+from pyvc.verify import args_by_name as N
 from refs.stubdom import StubSoup, StubTag
 
 SHAPES = {"one language": {"en-US": 2}, "two languages": {"en-US": 2, "fr-FR": 1}, "empty first": {"de": 0, "en-US": 1},
@@ -54,20 +55,21 @@ def write_skeleton(c):
             log.append(("cleanup", len(soup.find("body").children)))
 
     def h_p(interp, fn, a, kw):
-        p = StubTag("p", {"of": a[1]})
-        log.append(("p", a[1], a[2], a[3] is soup, a[4] is cs if len(a) > 4 else None, a[5] if len(a) > 5 else kw.get("lang")))
+        x = N(fn, a, kw)
+        p = StubTag("p", {"of": x["caption"]})
+        log.append(("p", x["caption"], x["caption_style"], x["dfxp"] is soup, x["caption_set"] is cs, x["lang"]))
         return p
     q = "pycaption.dfxp.base:"
     import copy
     c.interp.overrides[BeautifulSoup] = lambda *a, **kw: soup
     c.interp.overrides[copy.deepcopy] = lambda x, *a: (log.append(("copy", x is cs, c.interp.getattr(w, "open_span"))), x)[1]
     c.interp.contracts.update({
-        q + "DFXPWriter._recreate_styling_tag": lambda interp, fn, a, kw: a[3],
+        q + "DFXPWriter._recreate_styling_tag": lambda interp, fn, a, kw: N(fn, a, kw)["dfxp"],
         q + "DFXPWriter._get_region_creator_class": lambda interp, fn, a, kw: Regions,
         q + "DFXPWriter._recreate_p_tag": h_p,
         q + "DFXPWriter._assign_positioning_data": lambda interp, fn, a, kw: None,
         q + "_VerbatimTextFormatter.__init__": lambda interp, fn, a, kw: None,
-        "pycaption.base:BaseWriter._relativize_and_fit_to_screen": lambda interp, fn, a, kw: a[1]})
+        "pycaption.base:BaseWriter._relativize_and_fit_to_screen": lambda interp, fn, a, kw: N(fn, a, kw)["layout_info"]})
     r = c.call(DFXPWriter.write, w, cs, force, compare=False)
     want = [force] if force in langs else langs
     import os
@@ -130,14 +132,15 @@ def sami_write_skeleton(c):
     q = "pycaption.sami:SAMIWriter."
 
     def h_p(interp, fn, a, kw):
-        log.append(("p", a[1], a[2], a[3], a[4], a[5], interp.getattr(w, "last_time"), interp.getattr(w, "open_span")))
+        x = N(fn, a, kw)
+        log.append(("p", x["caption"], x["sami"], x["lang"], x["primary"], x["captions"], interp.getattr(w, "last_time"), interp.getattr(w, "open_span")))
         interp.setattr(w, "last_time", 777)
-        return a[2]
+        return x["sami"]
     c.interp.overrides[BeautifulSoup] = lambda *a, **kw: SamiSoup()
     c.interp.overrides[copy.deepcopy] = lambda x, *a: (log.append(("copy", x)), x)[1]
     c.interp.contracts.update({q + "_recreate_p_tag": h_p,
-                               q + "_recreate_stylesheet": lambda interp, fn, a, kw: (log.append(("stylesheet", a[1])), "the style sheet")[1],
-                               "pycaption.base:BaseWriter._relativize_and_fit_to_screen": lambda interp, fn, a, kw: (log.append(("fit", a[1])), ("fitted", a[1]))[1]})
+                               q + "_recreate_stylesheet": lambda interp, fn, a, kw: (log.append(("stylesheet", N(fn, a, kw)["caption_set"])), "the style sheet")[1],
+                               "pycaption.base:BaseWriter._relativize_and_fit_to_screen": lambda interp, fn, a, kw: (log.append(("fit", N(fn, a, kw)["layout_info"])), ("fitted", N(fn, a, kw)["layout_info"]))[1]})
     if second_shape:
         _, earlier = build(SHAPES[second_shape])
         c.call(SAMIWriter.write, w, earlier, compare=False)
@@ -186,19 +189,17 @@ def single_positioning_write(c):
     log = []
     c.interp.contracts.update({
         "pycaption.dfxp.extras:SinglePositioningDFXPWriter._create_single_positioning_caption_set":
-            lambda interp, fn, a, kw: (log.append(("single", a)), "the repositioned set")[1],
-        "pycaption.dfxp.base:DFXPWriter.write": lambda interp, fn, a, kw: (log.append(("write", a[1:], dict(kw))), "the document")[1]})
+            lambda interp, fn, a, kw: (log.append(("single", (N(fn, a, kw)["caption_set"], N(fn, a, kw)["positioning"]))), "the repositioned set")[1],
+        "pycaption.dfxp.base:DFXPWriter.write": lambda interp, fn, a, kw: (log.append(("write", (N(fn, a, kw)["caption_set"], N(fn, a, kw)["force"]))), "the document")[1]})
     if how == "positionally":
         r = c.call(SP.write, w, "the caption set", force, compare=False)
     elif how == "by keyword":
         r = c.call(SP.write, w, "the caption set", force=force, compare=False)
     else:
         r, force = c.call(SP.write, w, "the caption set", compare=False), ""
-    c.ensure("positioning_replaced_by_this_writers", [e_ for e_ in log if e_[0] == "single"] == [("single", ("the caption set", "the positioning"))]
-             or [e_ for e_ in log if e_[0] == "single"] == [("single", (w, "the caption set", "the positioning"))])
+    c.ensure("positioning_replaced_by_this_writers", [e_ for e_ in log if e_[0] == "single"] == [("single", ("the caption set", "the positioning"))])
     writes = [e_ for e_ in log if e_[0] == "write"]
-    c.ensure("written_once_by_the_dfxp_writer_with_the_same_force", len(writes) == 1 and
-             (writes[0][1:] == (("the repositioned set", force), {}) or writes[0][1:] == (("the repositioned set",), {"force": force})))
+    c.ensure("written_once_by_the_dfxp_writer_with_the_same_force", writes == [("write", ("the repositioned set", force))])
     c.ensure("its_document_is_returned", r == "the document")
 
 
@@ -235,12 +236,13 @@ def legacy_write_skeleton(c):
     c.interp.overrides[copy.deepcopy] = lambda x, *a: (log.append(("copy", x is cs)), x)[1]
 
     def h_p(interp, fn, a, kw):
-        log.append(("p", a[1], dict(a[2]), a[3] is soup))
-        return StubTag("p", {"of": a[1]})
+        x = N(fn, a, kw)
+        log.append(("p", x["caption"], dict(x["caption_style"]), x["dfxp"] is soup))
+        return StubTag("p", {"of": x["caption"]})
     c.interp.contracts.update({
-        "pycaption.base:merge_concurrent_captions": lambda interp, fn, a, kw: (log.append(("merge", a[0] is cs, len([e_ for e_ in log if e_[0] == "copy"]))), a[0])[1],
-        q + "_recreate_styling_tag": lambda interp, fn, a, kw: a[3],
-        q + "_recreate_region_tag": lambda interp, fn, a, kw: (log.append(("region", a[1])), a[3])[1],
+        "pycaption.base:merge_concurrent_captions": lambda interp, fn, a, kw: (log.append(("merge", N(fn, a, kw)["caption_set"] is cs, len([e_ for e_ in log if e_[0] == "copy"]))), N(fn, a, kw)["caption_set"])[1],
+        q + "_recreate_styling_tag": lambda interp, fn, a, kw: N(fn, a, kw)["dfxp"],
+        q + "_recreate_region_tag": lambda interp, fn, a, kw: (log.append(("region", N(fn, a, kw)["region_id"])), N(fn, a, kw)["dfxp"])[1],
         q + "_recreate_p_tag": h_p,
         "pycaption.dfxp.base:_VerbatimTextFormatter.__init__": lambda interp, fn, a, kw: None})
     r = c.call(LW.write, w, cs, force, compare=False)
